@@ -1,6 +1,7 @@
 (* Props/C19.v — property theorems only.  C19: output tables label time correctly. *)
-From Coq Require Import ZArith QArith List.
-From GHE Require Import Base.QUtil gen.Src Model.OutputTime Proof.OutputTimeP Proof.OutputTimeSpecP Proof.H2MGenP.
+From Coq Require Import ZArith QArith List String.
+From GHE Require Import Base.QUtil gen.Src Model.OutputTime Proof.OutputTimeP Proof.OutputTimeSpecP Proof.H2MGenP Proof.TablesP.
+Import ListNotations.
 Open Scope Q_scope.
 
 (* every hour of the year 0..8759 (complete finite domain), on the function REGENERATED from output.py:
@@ -35,3 +36,22 @@ Print Assumptions C19_hours_to_month_month_ends.
 (* non-vacuity: hour 1416 is 1 March 01:00 *)
 Example C19_nonvacuous : ghe_time_convert 1416 = (3, 1, 1).
 Proof. vm_compute. reflexivity. Qed.
+
+(* the hourly loads table, row builder REGENERATED from output.py (get_hourly_loading_data): for EVERY load list, one row per input hour,
+   in order; row k carries the label of hour k (the regenerated ghe_time_convert, characterised by C19_convert_is_calendar), the index k and
+   the k-th input load unchanged *)
+Theorem C19_hourly_table_echoes_loads : forall loads : list Q,
+  List.length (hourly_table_rows loads) = List.length loads /\
+  forall k, (k < List.length loads)%nat ->
+    nth k (hourly_table_rows loads) [] = (let '(m, d, h) := ghe_time_convert (natQ k) in [m; d; h; natQ k; nth k loads 0]).
+Proof. exact hourly_table_echo. Qed.
+Print Assumptions C19_hourly_table_echoes_loads.
+
+(* the bore-field table, row builder REGENERATED from output.py (get_borehole_location_data; it iterates over
+   design.ghe.gFunction.bore_locations, pinned below): exactly the coordinates it is given, in order, nothing added or dropped *)
+Theorem C19_bore_table_lists_the_coordinates : forall coords : list (Q * Q),
+  bore_table_rows coords = map (fun p => [fst p; snd p]) coords.
+Proof. exact bore_table_echo. Qed.
+Print Assumptions C19_bore_table_lists_the_coordinates.
+Example C19_bore_table_source_pinned : bore_table_rows_source = "design.ghe.gFunction.bore_locations"%string.
+Proof. reflexivity. Qed.
